@@ -22,7 +22,10 @@ GATE_BODIES = {"x": (["{h} v"], {"h": ("str", G2)}),
                "x-decl-fence": (["{h} v", "DECLARE tmp REAL[1]", "FENCE v"], {"h": ("str", G2)}),                  # a call directly before a hoisted DECLARE
                "fence-x-fence": (["FENCE v", "{h} v", "FENCE v"], {"h": ("str", G2)}),
                "three": (["FENCE v", "RESET v", "FENCE v"], {}),
-               "pulse": (['PULSE v "rf" ' + WF], {})}
+               "pulse": (['PULSE v "rf" ' + WF], {}),
+               # one instruction of every remaining kind that can carry a qubit variable (frame updates, the two-frame SWAP-PHASES, both DELAY forms)
+               "kinds": (['SWAP-PHASES v "rf" v "ro"', 'SET-FREQUENCY v "rf" %t', 'SHIFT-FREQUENCY v "rf" 1.0', 'SET-PHASE v "rf" 1.0', 'SET-SCALE v "rf" 1.0',
+                          'DELAY v 1.0', 'DELAY v "rf" 1.0'], {})}
 MEAS_HEADERS = {"mv": ("DEFCAL MEASURE v addr:", {}), "mf": ("DEFCAL MEASURE {q} addr:", {"q": ("int", Q)}),
                 "mv0": ("DEFCAL MEASURE v:", {})}          # measurement for effect (no target)
 MEAS_BODIES = {"cap-addr": (['CAPTURE v "ro" ' + WF + " addr[0]"], {}),
